@@ -3,6 +3,7 @@ package props
 import (
 	"errors"
 	"fmt"
+	"sync/atomic"
 	"time"
 
 	"github.com/pion/stun/v3"
@@ -179,6 +180,9 @@ func c15(c *core.Ctx) {
 	}
 	c15Targeted(c)
 	clientPairwise(c, c15Oracles)
+	defer func() {
+		c.Count("goroutine_scans_skipped_because_an_abandoned_client_was_alive", atomic.LoadInt64(&leakScansSkipped))
+	}()
 	clientStress(c, c15Oracles, c.N(200, 8000), func(i int64, r *gen.Rand) stressCfg {
 		return stressCfg{
 			goroutines: 2 + r.Intn(10), opsPerG: 2 + r.Intn(8), closers: 1 + r.Intn(4),
